@@ -1,7 +1,7 @@
 (* C08 — property theorems only.  Each is closed by [exact] of a lemma proved in C08/Proofs*.v
    and followed by Print Assumptions.  Constants, the footprint macro and the memory orders are
    those re-extracted from the code on this run (gen/Params_C08.v). *)
-From MV Require Import Lib.Leaf C08.Model C08.ModelConc C08.ProofsSeq C08.ProofsDrain C08.ProofsConc C08.ProofsConcInv C08.ProofsConcWipe C08.ProofsGen gen.Params_C08.
+From MV Require Import Lib.Leaf C08.Model C08.ModelConc C08.ModelAttach C08.ProofsAttach C08.ProofsSeq C08.ProofsDrain C08.ProofsOpen C08.ProofsConc C08.ProofsConcInv C08.ProofsConcRead C08.ProofsConcWipe C08.ProofsGen C08.ProofsGenOpen gen.Params_C08.
 Local Open Scope Z_scope.
 
 (* tie of the literals used by the model to the headers: cache line size, header layout, and the
@@ -14,23 +14,47 @@ Theorem shm_constants_and_footprint_match :
 Proof. vm_compute. repeat split; reflexivity. Qed.
 Print Assumptions shm_constants_and_footprint_match.
 
+(* muggle_shm_ringbuf_open: sizeof(muggle_shm_ringbuf_t) and MUGGLE_SHM_FLAG_CREAT as the headers of this run define them *)
+Theorem shm_open_constants_match : code_ring_hdr_size = RHDR /\ code_flag_creat = 1.
+Proof. vm_compute. split; reflexivity. Qed.
+Print Assumptions shm_open_constants_match.
+
+(* The ring as muggle_shm_ringbuf_open sizes it, for every request of 1 byte .. 2^31 bytes (powers of two or not,
+   multiples of 64 / 4096 or not): the number of cache lines is THE least power of two that holds the request,
+   n_bytes is that many lines, and the segment asked from muggle_shm_open (a multiple of 4096, less than a page
+   of slack) holds the ring header and the WHOLE announced data area - so every line index the other theorems
+   prove to be < n lies inside the shared memory; 1 <= n < 2^31 is the hypothesis of those theorems. *)
+Theorem shm_open_segment_holds_ring : forall nbytes, 1 <= nbytes <= 2147483648 ->
+  let '(n, data, total) := open_sizes nbytes in
+  (exists k, 0 <= k /\ n = 2 ^ k) /\ nbytes <= CL * n /\
+  (forall j, 0 <= j -> nbytes <= CL * 2 ^ j -> n <= 2 ^ j) /\
+  1 <= n < 2147483648 /\ data = CL * n /\
+  RHDR + CL * n <= total /\ total mod PAGE = 0 /\ total < RHDR + CL * n + PAGE.
+Proof. exact open_sizes_ok. Qed.
+Print Assumptions shm_open_segment_holds_ring.
+
 (* Every message the writer commits is fetched exactly once, in commit order, with exactly the
    committed length and bytes, and fetch reports nothing only when no committed message is
-   pending: along EVERY op list (all size sequences, all ring sizes) each fetch answers the head
+   pending: along EVERY op list (all size sequences, all ring sizes; allocations through
+   w_alloc_bytes AND through w_alloc_cachelines with any footprint that holds the message, e.g.
+   fixed-size slots: op OAllocCl) each fetch answers the head
    of the ghost FIFO (appended at commit with the bytes then in memory, popped at r_move) or
-   None iff that FIFO is empty; the committed bytes have the committed length. *)
-Theorem shm_seq_refines_fifo : forall n ops, 1 <= n < 2147483648 ->
+   None iff that FIFO is empty; the committed bytes have the committed length.  [sized ops] is the property's size
+   hypothesis: every allocation in the history asks for at least 1 byte (a message of length 0 is executed by the
+   model as the code executes it - its header is the wrap marker - and is outside the property's quantifier, see
+   shm_zero_length_observation below). *)
+Theorem shm_seq_refines_fifo : forall n ops, 1 <= n < 2147483648 -> sized ops ->
   fifo_ok (hinit n) [] ops /\
   (let h := fst (reach (hinit n) [] ops) in let q := snd (reach (hinit n) [] ops) in
    h = fst (run (hinit n) ops) /\ snd (step h OFetch) = expected_fetch q /\
    Forall (fun m => Z.of_nat (length (m_data m)) = m_nb m /\ 1 <= m_nb m) q).
-Proof. intros n ops H. split; [exact (seq_refines_fifo n ops H)|exact (seq_reachable_facts n ops H)]. Qed.
+Proof. intros n ops H Hs. split; [exact (seq_refines_fifo n ops H Hs)|exact (seq_reachable_facts n ops H Hs)]. Qed.
 Print Assumptions shm_seq_refines_fifo.
 
 (* The region handed to the writer, lines [a, a+need), lies inside the ring (leaving the last line
    for a marker), holds the payload, is disjoint from every committed unread message and from the
    wrap marker the reader may still look at. *)
-Theorem shm_alloc_no_overlap : forall n ops nb h' off, 1 <= n < 2147483648 ->
+Theorem shm_alloc_no_overlap : forall n ops nb h' off, 1 <= n < 2147483648 -> sized ops -> 1 <= nb ->
   let h := fst (reach (hinit n) [] ops) in let q := snd (reach (hinit n) [] ops) in
   step h (OAlloc nb) = (h', RAlloc (Some off)) ->
   let a := wcur (hr h') in let need := cal_cachelines nb in
@@ -40,8 +64,21 @@ Theorem shm_alloc_no_overlap : forall n ops nb h' off, 1 <= n < 2147483648 ->
 Proof. exact alloc_no_overlap. Qed.
 Print Assumptions shm_alloc_no_overlap.
 
+(* the same for muggle_shm_ringbuf_w_alloc_cachelines with an explicit footprint nc (any slack above what the
+   message needs): the WHOLE of [a, a + nc) is inside the ring, free of unread messages and of the live marker *)
+Theorem shm_alloc_cl_no_overlap : forall n ops nb nc h' off, 1 <= n < 2147483648 -> sized ops -> 1 <= nb ->
+  let h := fst (reach (hinit n) [] ops) in let q := snd (reach (hinit n) [] ops) in
+  step h (OAllocCl nb nc) = (h', RAlloc (Some off)) ->
+  let a := wcur (hr h') in
+  cal_cachelines nb <= nc /\
+  off = CL * a + HDR /\ 0 <= a /\ a + nc <= n - 1 /\ off + nb <= CL * (a + nc - 2) /\
+  Forall (fun m => m_at m + m_nc m <= a \/ a + nc <= m_at m) q /\
+  (forall p, live_marker (hr h') q p -> a + nc <= p).
+Proof. exact alloc_cl_no_overlap. Qed.
+Print Assumptions shm_alloc_cl_no_overlap.
+
 (* cursors, cached_remain and every offset the reader is given stay inside the data area *)
-Theorem shm_indices_in_range : forall n ops, 1 <= n < 2147483648 ->
+Theorem shm_indices_in_range : forall n ops, 1 <= n < 2147483648 -> sized ops ->
   let h := fst (run (hinit n) ops) in
   0 <= wcur (hr h) <= n - 1 /\ 0 <= rcur (hr h) <= n - 1 /\ 0 <= crem (hr h) /\
   wcur (hr h) + crem (hr h) <= n - 1 /\ Z.of_nat (length (mem (hr h))) = CL * n /\
@@ -56,20 +93,33 @@ Print Assumptions shm_indices_in_range.
    Proved part (P_partial): a ring drained at line p accepts a message iff its footprint is at most
    max (n-1-p) (p-1) lines; hence it accepts every message outside the known class, and every
    message of at most n/2 - 1 lines wherever it was drained. *)
-Theorem shm_drained_accepts_partial : forall n ops p nb, 1 <= n < 2147483648 ->
+Theorem shm_drained_accepts_partial : forall n ops p nb, 1 <= n < 2147483648 -> sized ops ->
   let h := fst (reach (hinit n) [] ops) in
   wcur (hr h) = p -> rcur (hr h) = p -> 1 <= nb < 2147483648 ->
   (accepts h nb <-> cal_cachelines nb <= Z.max (n - 1 - p) (p - 1)) /\
   (nb <= (CL / 2) * n -> in_known_class n p nb = false -> accepts h nb) /\
   (cal_cachelines nb <= n / 2 - 1 -> accepts h nb).
 Proof.
-  intros n ops p nb H h Hw Hr Hnb.
-  pose proof (reach_inv n H ops (hinit n) [] (init_inv n H)) as I. fold h in I.
+  intros n ops p nb H Hs h Hw Hr Hnb.
+  pose proof (reach_inv n H ops (hinit n) [] Hs (init_inv n H)) as I. fold h in I.
   split; [exact (proj1 (drained_alloc n H h _ p nb I Hw Hr Hnb))|]. split.
   - intros Hh Hk. exact (drained_accepts_outside_class n H h _ p nb I Hw Hr ltac:(lia) ltac:(lia) Hk).
-  - intros Hs. exact (drained_accepts_small n H h _ p nb I Hw Hr Hnb Hs).
+  - intros Hsm. exact (drained_accepts_small n H h _ p nb I Hw Hr Hnb Hsm).
 Qed.
 Print Assumptions shm_drained_accepts_partial.
+
+(* with an explicit footprint: a ring drained at line p accepts a request for nc lines (nc >= what the message
+   needs) exactly when nc <= max (n-1-p) (p-1); a refusal changes nothing *)
+Theorem shm_drained_accepts_cl : forall n ops p nb nc, 1 <= n < 2147483648 -> sized ops ->
+  let h := fst (reach (hinit n) [] ops) in
+  wcur (hr h) = p -> rcur (hr h) = p -> 1 <= nb < 2147483648 -> cal_cachelines nb <= nc < 2147483648 ->
+  (accepts_cl h nb nc <-> nc <= Z.max (n - 1 - p) (p - 1)) /\
+  (~ accepts_cl h nb nc -> step h (OAllocCl nb nc) = (h, RAlloc None)).
+Proof.
+  intros n ops p nb nc H Hs h Hw Hr Hnb Hnc.
+  exact (drained_alloc_cl n h _ p nb nc H (reach_inv n H ops (hinit n) [] Hs (init_inv n H)) Hw Hr Hnb Hnc).
+Qed.
+Print Assumptions shm_drained_accepts_cl.
 
 (* KNOWN FINDING (P_refuted): ring of 8 lines, drained at line 4 = n/2 after one message was sent and
    consumed; a message of 100 bytes (footprint 4 = n/2 lines, 100 <= 256 = half the ring's bytes) is
@@ -84,10 +134,26 @@ Theorem shm_drained_half_refuted :
 Proof. exact drained_half_witness. Qed.
 Print Assumptions shm_drained_half_refuted.
 
+(* OBSERVATION outside the property's quantifier (message sizes 1 byte .. half the ring): muggle_shm_ringbuf_w_alloc_bytes
+   accepts a length of 0; the header of such a message is the wrap marker's encoding, so once it is committed the
+   reader jumps back to line 0 and is given the first (already consumed) message again after every r_move; the
+   0-byte message and whatever is committed after it are never delivered.  The model executes the code as it is
+   (both drivers run such histories and agree); the theorems above carry [sized]. *)
+Theorem shm_zero_length_observation :
+  let rs := snd (run (hinit 16) [OAlloc 5; OWrite 0 [65; 66; 67; 68; 69]; OCommit; OFetch; ORMove;
+                                  OAlloc 0; OCommit; OFetch; ORMove; OFetch; ORMove; OFetch]) in
+  nth 3 rs RSkip = RFetch (Some (8, 5, [65; 66; 67; 68; 69])) /\ nth 5 rs RSkip = RAlloc (Some 200) /\
+  nth 7 rs RSkip = RFetch (Some (8, 5, [65; 66; 67; 68; 69])) /\ nth 9 rs RSkip = RFetch (Some (8, 5, [65; 66; 67; 68; 69])) /\
+  nth 11 rs RSkip = RFetch (Some (8, 5, [65; 66; 67; 68; 69])) /\
+  ~ sized [OAlloc 0].
+Proof. exact zero_length_observation. Qed.
+Print Assumptions shm_zero_length_observation.
+
 (* ------------------------------------------------------------------ concurrent layer *)
 
 (* side condition on the memory orders the code passes at the cursor and lock sites (re-extracted
-   on this run): both stores of write_cursor release, the reader's load acquire, lock acquire/release *)
+   on this run): both stores of write_cursor release, the reader's load acquire, lock acquire/release,
+   and - for the reader -> writer direction - the store of read_cursor in r_move release *)
 Theorem shm_conc_memory_orders_sufficient : mo_sufficient code_params = true.
 Proof. vm_compute. reflexivity. Qed.
 Print Assumptions shm_conc_memory_orders_sufficient.
@@ -117,6 +183,34 @@ Proof.
   exact (conc_inv_reachable code_params n locked tries kill scripts sched Hn Hs shm_conc_memory_orders_sufficient).
 Qed.
 Print Assumptions shm_conc_inv_reachable.
+
+(* The other direction of the hand-over (read-before-overwrite): in every reachable state, under EVERY
+   interleaving, no writer has stored into a line whose latest plain read by the reader was not known to that
+   writer to be complete (published by a release store of read_cursor that the writer's load of read_cursor - or
+   the lock hand-over from a writer that loaded it - has observed): c_rrace = 0, together with the invariant RC
+   behind it (C08/ProofsConcRead.v).  Needs r_move's store of read_cursor to be a release (part of
+   mo_sufficient); with that store relaxed the model has a history with c_rrace > 0
+   (conc_release_of_read_cursor_necessary below).  Accepted without proof obligation, see TRUSTED_BASE: the
+   writer's relaxed load of read_cursor as the acquiring side, and the relaxed store read_cursor := 0 of
+   r_fetch as ordered after the one header read it is control-dependent on. *)
+Theorem shm_conc_reads_complete_before_overwrite : forall n locked tries kill scripts sched,
+  1 <= n < 2147483648 -> valid_scripts scripts ->
+  let s := exec csys (cstep code_params) (cinit n locked tries kill scripts) sched in
+  RC s /\ c_rrace s = 0%nat.
+Proof.
+  intros n locked tries kill scripts sched Hn Hs.
+  exact (conc_reads_covered code_params n locked tries kill scripts sched Hn Hs shm_conc_memory_orders_sufficient).
+Qed.
+Print Assumptions shm_conc_reads_complete_before_overwrite.
+
+Theorem shm_conc_release_of_read_cursor_necessary :
+  let s0 := cinit 8 false 3 None [[(120, 1); (1, 2); (1, 3)]] in
+  let sa := exec csys (cstep P_code) s0 (rr 8 1 ++ rr 12 0 ++ rr 20 1 ++ rr 30 0) in
+  let sb := exec csys (cstep P_rlx_move) s0 (rr 8 1 ++ rr 12 0 ++ rr 20 1 ++ rr 30 0) in
+  c_rrace sa = 0%nat /\ c_delivered sa = c_committed sa /\ length (c_committed sa) = 3%nat /\
+  (0 < c_rrace sb)%nat /\ mo_sufficient P_rlx_move = false /\ mo_sufficient P_code = true.
+Proof. exact conc_release_of_read_cursor_necessary. Qed.
+Print Assumptions shm_conc_release_of_read_cursor_necessary.
 
 (* Crash safety as a corollary: after ANY schedule the writers stop for good (they are never
    scheduled again, wherever they were: inside update_cached_remain, between the marker and the wrap
@@ -159,6 +253,34 @@ Theorem shm_reader_wipe_after_release_refuted :
   c_unread s = [(0, 3, 40)] /\ c_hN s 0 = 0.
 Proof. exact wipe_after_release_refuted. Qed.
 Print Assumptions shm_reader_wipe_after_release_refuted.
+
+(* ------------------------------------------------------------------ the `ready` hand-over of open / is_ready *)
+(* memory orders of the three sites as the code passes them on this run: store of ready in
+   muggle_shm_ringbuf_open release, load of ready in muggle_shm_ringbuf_is_ready acquire *)
+Theorem shm_attach_memory_orders_sufficient : mo_attach_sufficient code_aparams = true.
+Proof. vm_compute. reflexivity. Qed.
+Print Assumptions shm_attach_memory_orders_sufficient.
+
+(* Under EVERY interleaving of the creating process (muggle_shm_ringbuf_open with CREAT: plain initialisation of
+   the geometry and the magic word, then the store of ready) and an attaching process that polls
+   muggle_shm_ringbuf_is_ready any number of times: whenever is_ready answers true the geometry the attacher
+   then reads is the one the creator wrote (never the zero-filled segment) and every such read is covered by the
+   attacher's view. *)
+Theorem shm_attach_reads_initialised_geometry : forall n tries sched,
+  let s := exec asys (astep code_aparams) (ainit n tries) sched in
+  a_uncov s = 0%nat /\ Forall (fun g => g = n) (a_got s).
+Proof. intros n tries sched. exact (attach_reads_initialised_geometry code_aparams n tries sched shm_attach_memory_orders_sufficient). Qed.
+Print Assumptions shm_attach_reads_initialised_geometry.
+
+(* necessity: with the store of ready (or the load of it) relaxed the same model reads the geometry uncovered *)
+Theorem shm_attach_orders_necessary :
+  let sc := arr 1 0 ++ arr 7 1 ++ arr 1 0 ++ arr 6 1 ++ arr 3 0 ++ arr 8 1 in
+  (0 < a_uncov (exec asys (astep AP_weak_store) (ainit 64 5) sc))%nat /\
+  (0 < a_uncov (exec asys (astep AP_weak_load) (ainit 64 5) sc))%nat /\
+  mo_attach_sufficient AP_weak_store = false /\ mo_attach_sufficient AP_weak_load = false /\
+  mo_attach_sufficient AP_code = true.
+Proof. exact attach_orders_necessary. Qed.
+Print Assumptions shm_attach_orders_necessary.
 
 (* ------------------------------------------------------------------ second tie (translator) *)
 (* The integer content of six functions of shm_ring_buffer.c is sliced out of the C text of THIS run
@@ -226,3 +348,16 @@ Theorem gen_r_move_matches_model :
   (forall s, r_move s = set_r s (ref_r_move (hdr_ncl (mem s) (r_hdr s)) (rcur s)) (r_hdr s)).
 Proof. exact (conj gen_r_move_ref model_r_move_ref). Qed.
 Print Assumptions gen_r_move_matches_model.
+
+(* muggle_shm_ringbuf_open (sliced by lib/props/c08_slice.py OpenSlicer: the ring is what muggle_shm_open returns,
+   its last argument is recorded as the segment size, memset / the release store of `ready` become field
+   assignments, muggle_next_pow_of_2 stays a call of the model function npo2): for EVERY uint32 request and
+   every flag word the segment size asked from muggle_shm_open and the values of n_bytes, total_bytes,
+   n_cacheline, write_cursor, cached_remain, read_cursor, magic, ready are those of the model (open_sizes / init),
+   about which shm_open_segment_holds_ring speaks. *)
+Theorem gen_open_matches_model :
+  forall cr mg nb ncl rc rdy seg tot wc k_num flag nbytes, 0 <= nbytes < 4294967296 ->
+    gen_open cr mg nb ncl rc rdy seg tot wc k_num flag nbytes =
+    ref_open cr mg nb ncl rc rdy seg tot wc (Z.land flag code_flag_creat) nbytes.
+Proof. exact gen_open_ref. Qed.
+Print Assumptions gen_open_matches_model.
